@@ -93,6 +93,10 @@ class IsoDepInitiator(object):
             for i in itertools.count(start=1):  # pragma: no branch
                 try:
                     data = self.clf.exchange(data, timeout)
+                    while len(data) > 1 and data[0] & 0xFE == 0xF2:  # WTX
+                        log.debug("ISO-DEP waiting time extension")
+                        wtx_timeout = (data[1] & 0x3F) * self.fwt
+                        data = self.clf.exchange(data, wtx_timeout)
                     if len(data) == 0:
                         raise nfc.clf.TransmissionError
                     if data[0] == 0xA2 | (~self.pni & 1):
@@ -118,10 +122,6 @@ class IsoDepInitiator(object):
                     log.error("ISO-DEP unrecoverable protocol error")
                     raise Type4TagCommandError(nfc.tag.PROTOCOL_ERROR)
 
-            while data[0] & 0b11111110 == 0b11110010:  # WTX
-                log.debug("ISO-DEP waiting time extension")
-                data = self.clf.exchange(data, (data[1] & 0x3F) * self.fwt)
-
             if data[0] & 0x01 != self.pni:
                 log.warning("ISO-DEP protocol error: block number")
                 raise Type4TagCommandError(nfc.tag.PROTOCOL_ERROR)
@@ -146,6 +146,10 @@ class IsoDepInitiator(object):
             for i in itertools.count(start=1):  # pragma: no branch
                 try:
                     data = self.clf.exchange(data, timeout)
+                    while len(data) > 1 and data[0] & 0xFE == 0xF2:  # WTX
+                        log.debug("ISO-DEP waiting time extension")
+                        wtx_timeout = (data[1] & 0x3F) * self.fwt
+                        data = self.clf.exchange(data, wtx_timeout)
                     if len(data) == 0:
                         raise nfc.clf.TransmissionError
                     break
